@@ -75,6 +75,9 @@ func ipSpell(rng *rand.Rand, ip net.IP, v6 bool) string {
 var badClasses = []string{"one-field", "three-fields", "bad-mac", "bad-ip", "wrong-family", "mac-too-short", "ip-garbage", "wrong-family-mapped", "ip-zoned"}
 
 func badLine(rng *rand.Rand, class string, v6 bool) string {
+	if rng == nil {
+		rng = rand.New(rand.NewSource(int64(len(class))))
+	}
 	mac := "02:00:00:aa:bb:cc"
 	ip4, ip6 := "10.9.9.9", "2001:db8::99"
 	right, wrong := ip4, ip6
@@ -87,7 +90,15 @@ func badLine(rng *rand.Rand, class string, v6 bool) string {
 	case "three-fields":
 		return mac + " " + right + " extra"
 	case "bad-mac":
-		return "02:00:00:aa:bb:zz " + right
+		// near misses of every accepted spelling (net.ParseMAC is the definition: one that it accepts is not used)
+		for {
+			m := []string{"02:00:00:aa:bb:zz", "02:00:00:aa:bb-cc", "02-00-00-aa-bb:cc", "02:00-00:aa-bb:cc", "02:00:00:aa:bb:cc:", ":02:00:00:aa:bb:cc", "2:0:0:aa:bb:cc",
+				"02:00:00:aa:bb:cc:dd", "0200.00aa.bbc", "0200.00aa:bbcc", "0200:00aa:bbcc", "02:00:00:aa:bb:c", "02:00:00:aa:bb:ccd", "02 00 00 aa bb cc", "0x02:00:00:aa:bb:cc",
+				"02:00:00:aa:bb:cc-dd-ee", "02.00.00.aa.bb.cc", "02:00:00:aa::cc", "02-00-00-aa-bb-cc-dd-ee-ff", "0200.00aa.bbcc.dd", "02:00:00:AA:BB:Cg"}[rng.Intn(21)]
+			if _, err := net.ParseMAC(strings.Fields(m + " x")[0]); err != nil || strings.Contains(m, " ") {
+				return m + " " + right
+			}
+		}
 	case "mac-too-short":
 		return "02:00:00 " + right
 	case "bad-ip":
@@ -465,7 +476,7 @@ func versionFile(v6 bool, macs, ver int, bad string) string {
 		fmt.Fprintf(&sb, "%s %s\n", net.HardwareAddr(refreshMac(i)), versionAddr(v6, ver, i))
 	}
 	if bad != "" {
-		sb.WriteString(badLine(nil, bad, v6) + "\n")
+		sb.WriteString(badLine(rand.New(rand.NewSource(int64(ver*131+len(bad)))), bad, v6) + "\n")
 	}
 	pad := fileLen - sb.Len() - 2
 	sb.WriteString("#" + strings.Repeat("p", pad) + "\n")
@@ -957,7 +968,7 @@ func runFileTwin(ctx *fw.Ctx, c *fileCase) {
 			fmt.Fprintf(&sb, "%s %s\n", net.HardwareAddr(refreshMac(i)), versionAddr(v6, ver, i))
 		}
 		if bad != "" {
-			sb.WriteString(badLine(nil, bad, v6) + "\n")
+			sb.WriteString(badLine(rand.New(rand.NewSource(int64(ver*131+len(bad)))), bad, v6) + "\n")
 		}
 		sb.WriteString("#" + strings.Repeat("p", fileLen-sb.Len()-2) + "\n")
 		return sb.String()
